@@ -22,7 +22,7 @@ EXPLANATION = (
     "selection, and a run-time selection is validated against graph.outputs before execution; (R4) the internal routing key is added only to the "
     "stored copy and removed on restore; (R5) on_missing is validated before execution and its handling is exhaustive over the three declared "
     "values (ignore returns silently, warn warns, error raises); (R6) what a nested graph exposes and the nested run's default selection implement "
-    "one policy. R3 also requires (CFG) that every explicit run-time selection other than '**' reaches the membership check against graph.outputs, because the collectors use any such object as the list of names to return."
+    "one policy. R3 also requires (CFG) that every explicit run-time selection other than '**' reaches the membership check against graph.outputs, because the collectors use any such object as the list of names to return. R5 also requires that every explicit selection (string shorthand or collection) is collected under the caller's on_missing policy; the collectors are found by their role in filter_outputs, not by name."
 )
 NOT_DECIDED = "That the forward-reachability computation itself is right (a graph algorithm over data); results of failed/paused runs beyond using the same filter."
 
